@@ -1319,10 +1319,7 @@ class TupleParser:
 
         is_array = self.unpack_boolean(attrl.get('ISARRAY', 'false'))
 
-        array_size = attrl.get('ARRAYSIZE', None)
-        if array_size is not None:
-            # Issue #1044: Clarify if hex support is needed.
-            array_size = int(array_size)
+        array_size = self.unpack_arraysize(tup_tree)
 
         scopes = None
         value = None
@@ -1513,10 +1510,7 @@ class TupleParser:
 
         qualifiers = self.list_of_matching(tup_tree, ('QUALIFIER',))
 
-        array_size = attrl.get('ARRAYSIZE', None)
-        if array_size is not None:
-            # Issue #1044: Clarify if hex support is needed.
-            array_size = int(array_size)
+        array_size = self.unpack_arraysize(tup_tree)
 
         embedded_object = False
         if 'EmbeddedObject' in attrl or 'EMBEDDEDOBJECT' in attrl:
@@ -1720,10 +1714,7 @@ class TupleParser:
         pname = attrl['NAME']
         ptype = attrl['TYPE']
 
-        array_size = attrl.get('ARRAYSIZE', None)
-        if array_size is not None:
-            # Issue #1044: Clarify if hex support is needed
-            array_size = int(array_size)
+        array_size = self.unpack_arraysize(tup_tree)
 
         qualifiers = self.list_of_matching(tup_tree, ('QUALIFIER',))
 
@@ -1759,10 +1750,7 @@ class TupleParser:
         pname = attrl['NAME']
         reference_class = attrl.get('REFERENCECLASS', None)
 
-        array_size = attrl.get('ARRAYSIZE', None)
-        if array_size is not None:
-            # Issue #1044: Clarify if hex support is needed
-            array_size = int(array_size)
+        array_size = self.unpack_arraysize(tup_tree)
 
         qualifiers = self.list_of_matching(tup_tree, ('QUALIFIER',))
 
@@ -2392,6 +2380,27 @@ class TupleParser:
                     for data in raw_val]
 
         return self.unpack_single_value(raw_val, valtype)
+
+    def unpack_arraysize(self, tup_tree):
+        """
+        Return the value of the optional ARRAYSIZE attribute of the element
+        as an integer, or None if the element does not have that attribute.
+        """
+
+        array_size = attrs(tup_tree).get('ARRAYSIZE', None)
+        if array_size is None:
+            return None
+
+        # Issue #1044: Clarify if hex support is needed.
+        try:
+            return int(array_size)
+        except ValueError:
+            new_exc = CIMXMLParseError(
+                _format("Element {0!A} has invalid 'ARRAYSIZE' attribute "
+                        "value {1!A}", name(tup_tree), array_size),
+                conn_id=self.conn_id)
+            new_exc.__cause__ = None
+            raise new_exc
 
     def unpack_single_value(self, data, cimtype):
         """
